@@ -175,6 +175,17 @@ CLAIMED = {
          'threads / one request each on the real cache; larger mixes only free-running.',
     technique='TLC exhaustive interleaving model + TLC-generated schedules forced on real threads + TLC trace validation of concurrent logs',
     design='4/C17'),
+ 'C16': dict(
+    category='model_checking',
+    text='Matrix.tla is the abstract bit matrix with the interface\'s preconditions and the bookkeeping they refer to (dense tail, '
+         'column index, stale columns, undefined cells). TLC checks it exhaustively on tiny shapes (well-formedness, row-space '
+         'preservation) and generates, in simulation mode, operation histories that follow the solver\'s usage on shapes around the '
+         '64-bit word boundaries with tails grown across 64 and 128 columns; every query answer and periodic full snapshots are '
+         'replayed on both DenseBinaryMatrix and SparseBinaryMatrix.',
+    note='Trusted: TLC; preconditions as read from the code and the solver\'s call sites (DESIGN Appendix C). Generated, not exhaustive, '
+         'beyond 3x3.',
+    technique='TLC exhaustive small model + TLC-simulated operation histories replayed on both matrix back-ends (spec->impl)',
+    design='4/C16'),
 }
 
 NOT_YET = 'check not built yet in this round (work in progress; see DESIGN.md section 8 for the order of work)'
@@ -226,7 +237,8 @@ def main():
 
 
 NA = {}
-HOOK_COMMITS = ['7b4caa9', '4fb854c', '324160c', '780b1b4', 'dc24c31', '492f3d7']
+assert not [p for p in ALL if p not in CLAIMED], 'all properties are claimed'
+HOOK_COMMITS = ['7b4caa9', '4fb854c', '324160c', '780b1b4', 'dc24c31', '492f3d7', 'f83de05']
 FIX_COMMITS = ['e1f7f98', '497f892', 'c3da831', 'ae71c22']
 
 if __name__ == '__main__':
